@@ -120,3 +120,7 @@ package api
 //@   trusted
 //@   pure
 //@   ensures result == nil || quantity.Val(result) >= 0
+
+//@ func CommissionSchedule.AmendAndPruneAndValidate
+//@   trusted
+//@   modifies cs
